@@ -266,6 +266,28 @@ def _vector_case(keys):
     return h
 
 
+def _formula_object_density_case(E):
+    """density= / natural_density= keywords apply also when the compound is a Formula that carries its own density"""
+    from periodictable import xsf, formulas
+    keys = ['Xi', 'D', 'Y']
+    T, atoms, fakes = _setup_fake(E, keys)
+    counts = [E.real('c_%d%s' % (i, k), lo=0, lo_open=True, hi=1000) for i, k in enumerate(keys)]
+    own = E.real('rho_own', lo=0, lo_open=True, hi=25)
+    rho = E.real('rho', lo=0, lo_open=True, hi=25)
+    en = E.real('energy', lo=0.01, hi=30)
+    st = list(zip(counts, atoms))
+    with_density = formulas.formula(st, density=own)
+    plain = formulas.formula(st)
+    for kw in ('density', 'natural_density'):
+        a = xsf.xray_sld(with_density, energy=en, **{kw: rho})
+        b = xsf.xray_sld(plain, energy=en, **{kw: rho})
+        E.eq('keyword_%s_overrides_formula_density.re' % kw, _item(E, a[0]), _item(E, b[0]))
+        E.eq('keyword_%s_overrides_formula_density.im' % kw, _item(E, a[1]), _item(E, b[1]))
+    c = xsf.xray_sld(with_density, energy=en)
+    d = xsf.xray_sld(plain, energy=en, density=own)
+    E.eq('formula_density_used_without_keyword.re', _item(E, c[0]), _item(E, d[0]))
+
+
 def _isotope_independence_case(E):
     """equal natural density => same X-ray SLD whatever isotopes are present (non-ionic isotopes)"""
     from periodictable import xsf, formulas
@@ -441,6 +463,9 @@ def cases(tier):
         out.append(Case('sld[%s|%s|%s]' % ('+'.join(keys), dk, ak), _wrap(_sld_case(keys, dk, ak)), max_paths=64, timeout_ms=30000, portfolio=th, validate=False))
     out.append(Case('sld_vector[X+Y]', _wrap(_vector_case(('X', 'Y'))), max_paths=64, timeout_ms=30000, validate=False))
     out.append(Case('isotope_independence', _wrap(_isotope_independence_case), max_paths=64, timeout_ms=30000, validate=False))
+    out.append(Case('formula_object_density', _wrap(_formula_object_density_case), max_paths=64, timeout_ms=30000, validate=False))
+    from .c20 import _cromermann_case
+    out.append(Case('cromer_mann_formula', _cromermann_case, max_paths=32, timeout_ms=30000))
     out.append(Case('element_sld_and_conversions', _wrap(_element_sld_case), max_paths=16, timeout_ms=30000, validate=False))
     for na, nw, rg in [(1, 1, False), (2, 1, False), (1, 2, True)] + ([(2, 2, True)] if th else []):
         out.append(Case('reflectivity[angles=%d|wavelengths=%d|rough=%s]' % (na, nw, rg), _reflectivity_case(na, nw, rg), max_paths=256,
